@@ -193,65 +193,35 @@ Proof.
   rewrite Eb, !byte_shape_app, (starts_with_shape _ _ Hc). reflexivity.
 Qed.
 
-Lemma blank_all_shape s : byte_shape (blank_all s) = repeat false (N.to_nat (blen s)).
+Lemma spaces_shape n : byte_shape (spaces n) = repeat false (N.to_nat n).
 Proof.
-  induction s as [|c s IH]; [reflexivity|].
-  unfold blank_all in *. cbn [map concat blen]. rewrite byte_shape_app, IH.
-  replace (N.to_nat (u8len c + blen s)) with (N.to_nat (u8len c) + N.to_nat (blen s))%nat by lia.
-  rewrite repeat_app. f_equal.
-  unfold spaces. generalize (N.to_nat (u8len c)) as n.
-  induction n as [|n IHn]; [reflexivity|]. cbn [repeat]. rewrite byte_shape_cons, IHn. reflexivity.
+  unfold spaces. generalize (N.to_nat n) as k.
+  induction k as [|k IH]; [reflexivity|]. cbn [repeat]. rewrite byte_shape_cons, IH. reflexivity.
 Qed.
 
-Lemma byte_shape_no_nl s :
-  Forall (fun c => c <> 10) s -> byte_shape s = repeat false (N.to_nat (blen s)).
+(* blanking keeps line breaks, hence the whole byte shape *)
+Lemma blank_all_shape s : byte_shape (blank_all s) = byte_shape s.
 Proof.
-  induction 1 as [|c s Hc Hs IH]; [reflexivity|].
-  rewrite byte_shape_cons, IH. cbn [blen].
-  replace (N.to_nat (u8len c + blen s)) with (N.to_nat (u8len c) + N.to_nat (blen s))%nat by lia.
-  rewrite repeat_app. replace (c =? 10) with false by lia. reflexivity.
+  induction s as [|c s IH]; [reflexivity|].
+  unfold blank_all in *. cbn [map concat]. rewrite byte_shape_app, IH, (byte_shape_cons c s).
+  f_equal. destruct (c =? 10) eqn:E.
+  - apply N.eqb_eq in E. subst c. reflexivity.
+  - apply spaces_shape.
 Qed.
 
 Lemma blank_all_blen s : blen (blank_all s) = blen s.
 Proof.
   pose proof (f_equal (@length bool) (blank_all_shape s)) as H.
-  rewrite byte_shape_length, repeat_length in H. lia.
+  rewrite !byte_shape_length in H. lia.
 Qed.
 
-(* The text between "[//]:" and the opening delimiter, which md_ref_comment
-   blanks with spaces. *)
-Definition md_gap (s : str) : str :=
-  match find_sub (T "[//]:") s with
-  | Some (_, rest) =>
-    match find_char is_md_open (skipn 5 rest) with
-    | Some (skipped, _) => skipped
-    | None => []
-    end
-  | None => []
-  end.
-
-(* md_ref_comment_shape is FALSE as stated: `blank_all skipped` replaces every
-   byte between "[//]:" and the opening delimiter (parenthesis or quote) by a space, including
-   newlines, so a newline in that gap (CommonMark allows the title of a link
-   reference definition on the following line) changes the shape; every later
-   position computed from the normalised text is then one line short. *)
-Example md_ref_comment_shape_counterexample :
-  let s := T "[//]: #
-(x)" in
-  exists t, md_ref_comment s = Some t /\ byte_shape t <> byte_shape s.
+(* Before repair F11 the gap between "[//]:" and the title delimiter was blanked
+   including its line breaks, and this lemma was false (witness: "[//]: #\n(x)").
+   With line breaks kept it holds for every reference comment. *)
+Lemma md_ref_comment_shape : forall s t,
+  md_ref_comment s = Some t -> byte_shape t = byte_shape s.
 Proof.
-  exists [32; 32; 32; 32; 32; 32; 32; 32; 32; 120; 32].   (* the newline at offset 7 became a space *)
-  split; [vm_compute; reflexivity|vm_compute; discriminate].
-Qed.
-
-(* both shapes, side by side: they differ only on the gap *)
-Lemma md_ref_comment_decomp : forall s t,
-  md_ref_comment s = Some t ->
-  exists A B,
-    byte_shape s = A ++ byte_shape (md_gap s) ++ B /\
-    byte_shape t = A ++ repeat false (N.to_nat (blen (md_gap s))) ++ B.
-Proof.
-  intros s t H. unfold md_ref_comment in H. unfold md_gap.
+  intros s t H. unfold md_ref_comment in H.
   destruct (find_sub (T "[//]:") s) as [[pre rest]|] eqn:F; [|discriminate].
   destruct (find_char is_md_open (skipn 5 rest)) as [[skipped ob]|] eqn:C; [|discriminate].
   destruct ob as [|o body]; [discriminate|].
@@ -265,93 +235,20 @@ Proof.
   { unfold is_md_open in Ho. split; [apply u8len_ascii|]; lia. }
   assert (Pc : plain1 cl).
   { subst cl. destruct (o =? 40); [split; [reflexivity|lia]|exact Po]. }
-  exists (byte_shape pre ++ repeat false 5),
-         (false :: byte_shape content ++ false :: byte_shape (skipn 1 tail)).
   rewrite (byte_shape_app pre rest), (starts_with_shape _ _ Hs).
   change (length (T "[//]:")) with 5%nat.
   rewrite Ea, !byte_shape_app, blank_all_shape.
   rewrite (byte_shape_plain1 o body Po), Eb, byte_shape_app.
   rewrite (starts_with_shape _ _ Hc). cbn [length].
   pose proof (byte_shape_plain1 cl [] Pc) as Hcl. unfold char in Hcl.
-  rewrite Hcl, <- !app_assoc. split; reflexivity.
-Qed.
-
-Lemma shape_all_false_no_nl s :
-  Forall (fun b => b = false) (byte_shape s) -> Forall (fun c => c <> 10) s.
-Proof.
-  induction s as [|c s IH]; intros H; [constructor|].
-  rewrite byte_shape_cons in H. apply Forall_app in H. destruct H as [Hc Hs].
-  constructor; [|apply IH; exact Hs].
-  intros ->. change (N.to_nat (u8len 10)) with 1%nat in Hc. cbn [repeat] in Hc.
-  inversion Hc as [|? ? Hx _]. discriminate Hx.
-Qed.
-
-Lemma Forall_repeat_false k : Forall (fun b => b = false) (repeat false k).
-Proof. induction k; cbn [repeat]; constructor; auto. Qed.
-
-(* What is missing from md_ref_comment_shape is exactly: no newline in the
-   blanked gap (necessary and sufficient). *)
-Theorem md_ref_comment_shape_iff : forall s t,
-  md_ref_comment s = Some t ->
-  (byte_shape t = byte_shape s <-> Forall (fun c => c <> 10) (md_gap s)).
-Proof.
-  intros s t H. destruct (md_ref_comment_decomp s t H) as (A & B & Es & Et).
-  rewrite Es, Et. split.
-  - intros E. apply app_inv_head, app_inv_tail in E.
-    apply shape_all_false_no_nl. rewrite <- E. apply Forall_repeat_false.
-  - intros Hg. rewrite (byte_shape_no_nl _ Hg). reflexivity.
-Qed.
-
-Lemma md_ref_comment_shape_partial : forall s t,
-  md_ref_comment s = Some t -> Forall (fun c => c <> 10) (md_gap s) ->
-  byte_shape t = byte_shape s.
-Proof. intros s t H Hg. apply (md_ref_comment_shape_iff s t H). exact Hg. Qed.
-
-(* Unconditionally, the byte length is preserved (so offsets stay in range and on
-   the same columns of the last line only if no newline was blanked). *)
-Lemma md_ref_comment_blen : forall s t, md_ref_comment s = Some t -> blen t = blen s.
-Proof.
-  intros s t H. unfold md_ref_comment in H.
-  destruct (find_sub (T "[//]:") s) as [[pre rest]|] eqn:F; [|discriminate].
-  destruct (find_char is_md_open (skipn 5 rest)) as [[skipped ob]|] eqn:C; [|discriminate].
-  destruct ob as [|o body]; [discriminate|].
-  remember (if o =? 40 then 41 else o) as cl eqn:Ecl in *.
-  destruct (rfind_sub [cl] body) as [[content tail]|] eqn:R; [|discriminate].
-  apply inj_opt in H; subst t.
-  apply find_sub_split in F. destruct F as [-> Hs].
-  apply find_char_split in C. destruct C as (Ea & _ & o' & r' & Eo & Ho). inversion Eo; subst o' r'.
-  apply rfind_sub_split in R. destruct R as [Eb Hc].
-  assert (Po : u8len o = 1) by (unfold is_md_open in Ho; apply u8len_ascii; lia).
-  assert (Pc : u8len cl = 1) by (subst cl; destruct (o =? 40); [reflexivity|exact Po]).
-  assert (blen_app : forall a b, blen (a ++ b) = blen a + blen b).
-  { induction a as [|x a IH]; intros b; cbn [app blen]; [lia|rewrite IH; lia]. }
-  assert (Er : blen rest = 5 + blen (skipn 5 rest)).
-  { rewrite (starts_with_split _ _ Hs) at 1. rewrite blen_app. reflexivity. }
-  assert (Et : blen tail = 1 + blen (skipn 1 tail)).
-  { rewrite (starts_with_split _ _ Hc) at 1. rewrite blen_app. cbn [blen length]. lia. }
-  rewrite !blen_app, Er, Ea, blank_all_blen, !blen_app. cbn [blen]. rewrite Eb, !blen_app, Et, Po.
-  change (blen (T "     ")) with 5. change (blen (T " ")) with 1. lia.
+  rewrite Hcl. reflexivity.
 Qed.
 
 (* ---------- D4: normalise ---------- *)
-(* normalise_shape is FALSE as stated, for kind K_MD_REF only (see
-   md_ref_comment_shape_counterexample); it holds for every other kind, and for
-   K_MD_REF when the blanked gap contains no newline. *)
-Example normalise_shape_counterexample :
-  let s := T "[//]: #
-(x)" in
-  exists t, normalise K_MD_REF s = Ok (Some t) /\ byte_shape t <> byte_shape s.
+Theorem normalise_shape : forall k s t,
+  normalise k s = Ok (Some t) -> byte_shape t = byte_shape s.
 Proof.
-  exists [32; 32; 32; 32; 32; 32; 32; 32; 32; 120; 32].
-  split; [vm_compute; reflexivity|vm_compute; discriminate].
-Qed.
-
-Theorem normalise_shape_partial : forall k s t,
-  normalise k s = Ok (Some t) ->
-  (k = K_MD_REF -> Forall (fun c => c <> 10) (md_gap s)) ->
-  byte_shape t = byte_shape s.
-Proof.
-  intros k s t H Hmd. unfold normalise in H.
+  intros k s t H. unfold normalise in H.
   repeat match type of H with
   | (if ?k =? ?K then _ else _) = _ => destruct (k =? K) eqn:?
   | (if starts_with ?p ?s then _ else _) = _ => destruct (starts_with p s)
@@ -363,13 +260,8 @@ Proof.
              | reflexivity ]).
   - destruct (xml_comment s) as [t'| |] eqn:X; inversion H; subst t'.
     apply xml_comment_shape. exact X.
-  - inversion H as [H']. apply md_ref_comment_shape_partial; [exact H'|].
-    apply Hmd. lia.
+  - inversion H as [H']. apply md_ref_comment_shape. exact H'.
 Qed.
-
-Corollary normalise_shape_not_md : forall k s t,
-  k <> K_MD_REF -> normalise k s = Ok (Some t) -> byte_shape t = byte_shape s.
-Proof. intros k s t Hk H. eapply normalise_shape_partial; [exact H|]. intros; contradiction. Qed.
 
 (* byte length is preserved by every normaliser *)
 Lemma shape_blen a b : byte_shape a = byte_shape b -> blen a = blen b.
